@@ -205,9 +205,18 @@ class G:
                 sel.append({"e": g, "as": self.alias("g")})
             for _ in range(r.randint(1, 2)):
                 n_ = r.choice(["COUNT", "SUM", "MIN", "MAX"])
-                sel.append({"e": {"k": "agg", "n": n_, "a": self.expr(srcs, 1), "distinct": n_ in ("COUNT", "SUM") and r.random() < 0.2},
+                sel.append({"e": {"k": "agg", "n": n_, "a": self.expr(srcs, 1), "distinct": n_ in ("COUNT", "SUM") and r.random() < 0.3,
+                                  "filter": self.crit(srcs, 1) if r.random() < 0.3 else None, "filter_first": r.random() < 0.5},
                             "as": self.alias("m")})
-        else:
+        agg_only = (not grouped) and (not plain_cols) and r.random() < 0.08
+        if agg_only:
+            # aggregates over the whole input, no GROUP BY: one row - or none, if a HAVING condition says so
+            for _ in range(1 if single else r.randint(1, 2)):
+                n_ = r.choice(["COUNT", "SUM", "MIN", "MAX"])
+                sel.append({"e": {"k": "agg", "n": n_, "a": self.col(srcs, "int"), "distinct": n_ in ("COUNT", "SUM") and r.random() < 0.3,
+                                  "filter": self.crit(srcs, 1) if r.random() < 0.3 else None, "filter_first": r.random() < 0.5},
+                            "as": self.alias("m")})
+        elif not grouped:
             for _ in range(1 if single else r.randint(1, 4)):
                 if plain_cols or r.random() < 0.4:
                     e = self.col(srcs)
@@ -244,8 +253,10 @@ class G:
         q = {"k": "select", "from": [srcs[0]] + extra_from, "joins": joins, "select": sel, "distinct": (not grouped) and r.random() < 0.15,
              "where": self.crit(srcs, 2) if r.random() < 0.6 else None, "group": group,
              "having": ({"k": "cmp", "o": r.choice([">", ">=", "<"]), "l": {"k": "agg", "n": "COUNT", "a": {"k": "const", "v": 1}, "distinct": False},
-                         "r": {"k": "const", "v": r.randint(0, 3)}} if grouped and r.random() < 0.4 else None),
+                         "r": {"k": "const", "v": r.randint(0, 3)}} if (grouped and r.random() < 0.4) or (agg_only and r.random() < 0.7) else None),
              "order": [], "limit": None, "offset": None, "srcs": None}
+        if agg_only:
+            return q
         # (the single-column subquery of an IN list may be ordered and cut as well: ORDER BY + LIMIT, LIMIT + OFFSET, OFFSET alone)
         if (not single and r.random() < 0.5) or (single and r.random() < 0.35):
             for _ in range(r.randint(1, 2)):
@@ -373,7 +384,8 @@ def ref_expr(e, q=None):
         return "(CASE %s%s END)" % (" ".join("WHEN %s THEN %s" % (ref_expr(c, q), ref_expr(v, q)) for c, v in e["w"]),
                                     (" ELSE " + ref_expr(e["e"], q)) if e["e"] is not None else "")
     if k == "agg":
-        return "%s(%s%s)" % (e["n"], "DISTINCT " if e["distinct"] else "", ref_expr(e["a"], q))
+        return "%s(%s%s)%s" % (e["n"], "DISTINCT " if e["distinct"] else "", ref_expr(e["a"], q),
+                               (" FILTER (WHERE %s)" % ref_expr(e["filter"], q)) if e.get("filter") is not None else "")
     if k == "win":
         arg = "" if e["n"] in ("ROW_NUMBER", "RANK") else ref_expr(e["a"], q)
         part = ("PARTITION BY " + ", ".join(ref_expr(p, q) for p in e["part"]) + " ") if e["part"] else ""
@@ -540,7 +552,12 @@ class PB:
             return c
         if k == "agg":
             f = r["fn." + {"COUNT": "Count", "SUM": "Sum", "MIN": "Min", "MAX": "Max", "AVG": "Avg"}[e["n"]]](self.expr(e["a"], q, sel))
-            return f.distinct() if e["distinct"] else f
+            if e.get("filter") is not None and e.get("filter_first"):
+                f = f.filter(self.expr(e["filter"], q, sel))
+            f = f.distinct() if e["distinct"] else f
+            if e.get("filter") is not None and not e.get("filter_first"):
+                f = f.filter(self.expr(e["filter"], q, sel))
+            return f
         if k == "win":
             n = {"ROW_NUMBER": "RowNumber", "RANK": "Rank", "SUM": "Sum", "COUNT": "Count"}[e["n"]]
             f = r["an." + n]() if e["n"] in ("ROW_NUMBER", "RANK") else r["an." + n](self.expr(e["a"], q, sel))
